@@ -35,7 +35,7 @@ RULE = (
     "(family, uuid_first, n_est, n_gt, #same-uuid pairs class, #same-label pairs class)"
 )
 ASSUMPTIONS = ["unique non-null uuids per side and camera", "labels are equal when their enum members are equal"]
-DECIDING = ["C11.tlr_calls_judged", "C11.generic_calls_judged", "ClassificationAccuracy.judged", "C11.summaries_judged", "C11.perfect_cases", "C11.frames"]
+DECIDING = ["C11.tlr_calls_judged", "C11.generic_calls_judged", "ClassificationAccuracy.judged", "C11.summaries_judged", "C11.perfect_cases", "C11.frames", "C11.repeated_scorings"]
 JOBS = {"quick": 4, "thorough": 14}
 
 CAMS = [FrameID.CAM_TRAFFIC_LIGHT_NEAR, FrameID.CAM_TRAFFIC_LIGHT_FAR]
@@ -277,6 +277,45 @@ def run(ctx: Ctx) -> None:
                 res = mgr_mod.get_object_results(EvaluationTask.CLASSIFICATION2D, ests, gts, uuid_matching_first=uf)
                 score_all(ctx, res, gts, family, labels[:3])
                 ctx.case((family, uf, "rnd", min(len(ests), 5), min(len(gts), 5)), nontrivial=bool(ests) and bool(gts))
+
+        # ---- several frames gathered per label (nested layout) and scored more than once
+        for i in ctx.indices("multi_frame", 60 if ctx.quick else 4000):
+            r = ctx.rng("multi_frame", i)
+            family = r.choice(["traffic_light", "autoware"])
+            cams = CAMS if family == "traffic_light" else CAMS_GENERIC
+            labels = TL_LABELS if family == "traffic_light" else AW_LABELS
+            enum = TrafficLightLabel if family == "traffic_light" else AutowareLabel
+            tl = [enum(x) for x in labels]
+            n_frames = r.randint(2, 5)
+            gathered = {l: [] for l in tl}
+            n_gt = {l: 0 for l in tl}
+            ctx.begin_case("multi_frame", i, family=family, n_frames=n_frames)
+            with ctx.case_guard("multi_frame"):
+                for f in range(n_frames):
+                    n = r.randint(0, 6)
+                    gts_spec = [(r.choice(cams), f"id{k}", r.choice(labels)) for k in range(n)]
+                    ests_spec = [(c, u, l if r.random() < 0.6 else r.choice(labels)) for c, u, l in gts_spec if r.random() < 0.85]
+                    ests, gts = build(ests_spec, family, True), build(gts_spec, family, False)
+                    res = mgr_mod.get_object_results(EvaluationTask.CLASSIFICATION2D, ests, gts, uuid_matching_first=r.random() < 0.5)
+                    rd = of_mod.divide_objects(res, tl)
+                    nd = of_mod.divide_objects_to_num(gts, tl)
+                    for l in tl:
+                        gathered[l].append(rd[l])
+                        n_gt[l] += nd[l]
+                truth = {l: [list(fr) for fr in frames] for l, frames in gathered.items()}
+                first = None
+                for rep in range(3):
+                    s_ = cms_mod.ClassificationMetricsScore(gathered, n_gt, tl)
+                    out = s_._summarize()
+                    exp_n = sum(len(fr) for frames in truth.values() for fr in frames)
+                    got_n = sum(a.objects_results_num for a in s_.accuracies)
+                    ctx.count("C11.repeated_scorings")
+                    ctx.check(got_n == exp_n and all([list(fr) for fr in gathered[l]] == truth[l] for l in tl), "C11/scoring_changes_the_gathered_results", dict(family=family, repetition=rep, scored=got_n, gathered=exp_n), "ClassificationAccuracy")
+                    if first is None:
+                        first = out
+                    else:
+                        ctx.check(all(same_score(a, b) for a, b in zip(out, first)), "C11/score_of_same_results_changes_between_scorings", dict(family=family, repetition=rep, first=first, again=out), "ClassificationMetricsScore")
+                ctx.case((family, "multi_frame", n_frames), nontrivial=True)
 
         # ---- classification2d frames through the real frame evaluation
         from perception_eval.common.dataset import FrameGroundTruth
